@@ -5,7 +5,9 @@ cd /verif
 git -C /repo diff --quiet || { echo "/repo dirty"; exit 2; }
 git -C /repo apply /verif/seeded/$N/patch.diff || { echo "patch does not apply"; exit 2; }
 for P in "$@"; do
+  cp evidence/$P.json /var/tmp/evidence_keep_$P.json 2>/dev/null   # evidence must describe runs on /repo itself, not on a mutant
   ./check $P --tier ${TIER:-quick} > /tmp/seedrun_${N}_$P.log 2>&1; rc=$?
+  [ -f /var/tmp/evidence_keep_$P.json ] && mv /var/tmp/evidence_keep_$P.json evidence/$P.json
   echo "seed=$N check=$P tier=${TIER:-quick} exit=$rc $(grep -c '^VIOLATION' /tmp/seedrun_${N}_$P.log) violation lines" | tee -a seeded/$N/detect.log
 done
 git -C /repo checkout -- .
